@@ -11,7 +11,8 @@
      - the comment / blank line filter and the field trimming of table_from_file;
      - str(int) and int(str) for decimal integers (sign, leading zeros; no '_' separators, no
        non-ASCII digits: such fields are outside the modelled input language). *)
-From Coq Require Import List Bool String Ascii NArith ZArith Decimal DecimalN.
+From Coq Require Import List Bool String Ascii NArith ZArith.
+From Coq Require Decimal DecimalN.
 From KV Require Import Eqb.
 Import ListNotations.
 Local Open Scope char_scope.
@@ -42,7 +43,7 @@ Fixpoint lstrip (l : txt) : txt :=
   | c :: l' => if is_ws c then lstrip l' else l
   | [] => []
   end.
-Definition rstrip (l : txt) : txt := rev (lstrip (rev l)).
+Definition rstrip (l : txt) : txt := List.rev (lstrip (List.rev l)).
 Definition strip (l : txt) : txt := rstrip (lstrip l).
 
 (* str.split(c): always at least one piece *)
@@ -102,7 +103,7 @@ Definition table_of_text (t : txt) : list (list txt) := table_of_lines (lines t)
 (* ---- the character classes of a field that survives a write / read cycle *)
 Definition plain_char (c : ascii) : bool := negb (Ascii.eqb c COMMA) && negb (is_nl c).
 Definition first_not_ws (l : txt) : bool := match l with c :: _ => negb (is_ws c) | [] => true end.
-Definition trimmed (l : txt) : bool := first_not_ws l && first_not_ws (rev l).
+Definition trimmed (l : txt) : bool := first_not_ws l && first_not_ws (List.rev l).
 (* [clean]: contains no comma and no line end, does not start or end with ASCII white space *)
 Definition clean (l : txt) : bool := forallb plain_char l && trimmed l.
 Definition nonempty (l : txt) : bool := match l with [] => false | _ => true end.
@@ -136,17 +137,17 @@ Definition parse_int (l : txt) : option Z :=
 
 Fixpoint txt_of_uint (d : Decimal.uint) : txt :=
   match d with
-  | Nil => []
-  | D0 d => "0" :: txt_of_uint d
-  | D1 d => "1" :: txt_of_uint d
-  | D2 d => "2" :: txt_of_uint d
-  | D3 d => "3" :: txt_of_uint d
-  | D4 d => "4" :: txt_of_uint d
-  | D5 d => "5" :: txt_of_uint d
-  | D6 d => "6" :: txt_of_uint d
-  | D7 d => "7" :: txt_of_uint d
-  | D8 d => "8" :: txt_of_uint d
-  | D9 d => "9" :: txt_of_uint d
+  | Decimal.Nil => []
+  | Decimal.D0 d => "0" :: txt_of_uint d
+  | Decimal.D1 d => "1" :: txt_of_uint d
+  | Decimal.D2 d => "2" :: txt_of_uint d
+  | Decimal.D3 d => "3" :: txt_of_uint d
+  | Decimal.D4 d => "4" :: txt_of_uint d
+  | Decimal.D5 d => "5" :: txt_of_uint d
+  | Decimal.D6 d => "6" :: txt_of_uint d
+  | Decimal.D7 d => "7" :: txt_of_uint d
+  | Decimal.D8 d => "8" :: txt_of_uint d
+  | Decimal.D9 d => "9" :: txt_of_uint d
   end.
 
 (* str(n) for n >= 0 *)
@@ -179,7 +180,7 @@ Definition render_item (i : item) : txt :=
   | IComment b e => HASH :: b ++ eol_txt e
   | IBlank w e => w ++ eol_txt e
   end.
-Definition render_items (is : list item) : txt := concat (map render_item is).
+Definition render_items (is : list item) : txt := List.concat (map render_item is).
 
 Definition item_rows (i : item) : list (list txt) :=
   match i with IRow fs _ => [map padded_field fs] | _ => [] end.
